@@ -69,7 +69,7 @@ try:
         b = os.path.join(scratch, "b")
         t0 = time.time()
         c = subprocess.run(["cmake", "-S", wt, "-B", b, "-G", "Ninja", "-DCMAKE_BUILD_TYPE=RelWithDebInfo", "-DQUILL_BUILD_TESTS=ON", "-DQUILL_ENABLE_EXTENSIVE_TESTS=ON",
-                            "-DCMAKE_CXX_FLAGS=-Wno-error"], capture_output=True, text=True)
+                            "-DCMAKE_CXX_FLAGS=-Wno-error"] + [x for x in os.environ.get("SEED_CMAKE_EXTRA", "").split("|") if x], capture_output=True, text=True)
         bl = subprocess.run(["cmake", "--build", b, "-j", os.environ.get("SEED_JOBS", "8")], capture_output=True, text=True)
         if bl.returncode != 0:
             summary["tests"] = {"build_failed": bl.stdout[-1500:]}
